@@ -202,11 +202,27 @@ class Cell(NullCell):
         """
         if result is None:
             result = {}
-        if self in result:
-            result.pop(self)
-        result[self] = None
-        for ref in self.refs:
-            ref.order(result)
+        # Reverse post-order of a depth-first walk: every cell precedes the cells it references and every
+        # distinct cell is walked once.  (Re-walking a shared sub-DAG once per path is exponential, e.g. on
+        # a chain whose cells reference their child twice; recursion also failed on chains deeper than ~990.)
+        post = []
+        seen = set()
+        stack = [(self, 0)]
+        seen.add(self)
+        while stack:
+            cell, i = stack.pop()
+            if i < len(cell.refs):
+                stack.append((cell, i + 1))
+                ref = cell.refs[i]
+                if ref not in seen:
+                    seen.add(ref)
+                    stack.append((ref, 0))
+            else:
+                post.append(cell)
+        for cell in reversed(post):
+            if cell in result:
+                result.pop(cell)
+            result[cell] = None
         return result
 
     def serialize(self, indexes: dict, byte_len: int) -> bytes:
